@@ -155,6 +155,10 @@ class Executor:
             MemObj._next = 1
             self.newdec = []
             try:
+                self.run_global_ctors()
+                for o in p.objs:
+                    o.written = set()      # initialisation of globals is not part of the function's frame
+                    o.init_done = True
                 args = make_args(self, p)
                 p.ret = self.call_function(self.mod.functions[fname], args)
             except PathAbort as e:
@@ -166,6 +170,21 @@ class Executor:
             if len(paths) > max_paths:
                 raise Unsupported("more than %d paths in %s" % (max_paths, fname))
         return paths
+
+    def run_global_ctors(self):
+        g = self.mod.globals.get("llvm.global_ctors")
+        if g is None or g.init is None or g.init.kind != "agg":
+            return
+        items = []
+        for e in g.init.v:
+            prio = e.v[0].v
+            fn = e.v[1]
+            if fn.kind == "global":
+                items.append((prio, fn.v))
+        for prio, name in sorted(items, key=lambda t: t[0]):
+            f = self.mod.functions.get(name)
+            if f is not None:
+                self.call_function(f, [])
 
     # ------------------------------------------------------------------ memory
     def new_obj(self, name, size, kind, **kw):
@@ -918,7 +937,7 @@ class Executor:
             return dag.mk("fptrunc", v, prec="f")
         if op == "ptrtoint":
             v = self.val(ins.args[0], env)
-            return v if isinstance(v, Ptr) and ins.ty.a == 64 else self.ptr_to_int(v) & ((1 << ins.ty.a) - 1)
+            return self.ptr_to_int(v) & ((1 << ins.ty.a) - 1)
         if op == "inttoptr":
             v = self.val(ins.args[0], env)
             if isinstance(v, Ptr):
@@ -983,10 +1002,22 @@ class Executor:
 
     def fbin(self, op, a, b):
         self.need_fp(a), self.need_fp(b)
+        if a.op == "const" and b.op == "const":
+            # constant folding in IEEE arithmetic of the operand precision (Python floats are IEEE doubles)
+            x, y = float(a.args[0]), float(b.args[0])
+            try:
+                r = x + y if op == "fadd" else x - y if op == "fsub" else x * y if op == "fmul" else dag._fdiv(x, y)
+            except OverflowError:
+                r = math.inf
+            if a.prec == "f":
+                r = dag.f32(r)
+            return dag.const(r, prec=a.prec)
         return dag.mk(op[1:], a, b, prec=a.prec)
 
     def fneg(self, a):
         self.need_fp(a)
+        if a.op == "const" and a.args[0] != 0:
+            return dag.const(-a.args[0], prec=a.prec)
         return dag.neg(a)
 
     def ibin(self, op, a, b, w):
@@ -1256,9 +1287,15 @@ class Executor:
     def libm(self, fn, args, pr):
         for a in args:
             self.need_fp(a)
-        if all(a.op == "const" for a in args):
+        def cval(n):
+            if n.op == "const":
+                return float(n.args[0])
+            if n.op == "neg" and n.args[0].op == "const":
+                return -float(n.args[0].args[0])
+            return None
+        if all(cval(a) is not None for a in args):
             # constant folding through the host libm (exact same function the native build calls)
-            vals = [float(a.args[0]) for a in args]
+            vals = [cval(a) for a in args]
             f = getattr(dag._libm, fn + ("f" if pr == "f" else ""))
             r = f(*vals)
             if r == r and not math.isinf(r):
@@ -1319,6 +1356,12 @@ def mk_int(op, a, w, b=None):
 # ---------------------------------------------------------------------------- argument helpers
 def sym_buffer(ex, name, n, prec="d", writable=True, init=True):
     """A caller-owned array of n scalars; never-written cells read as variables name{idx}."""
+    if prec in ("i32", "i64"):
+        es = 4 if prec == "i32" else 8
+        o = ex.new_obj(name, n * es, "arg")
+        o.elem_size = es
+        o.elem_ty = Ty("int", 8 * es)
+        return Ptr(o, 0)
     es = 8 if prec == "d" else 4
     o = ex.new_obj(name, n * es, "arg")
 
